@@ -1,8 +1,12 @@
 import Toq.Model.PartialOps
 import Toq.Spec.PartialTrace
 import Toq.Proofs.PartialTrace
+import Toq.Model.PartialOpsArgs
+import Toq.Proofs.PartialOpsArgs
+import Toq.Proofs.PartialTraceExtra
 import Toq.Properties.C01
 import Mathlib.Algebra.Group.Defs
+import Mathlib.Data.Int.Star
 import Mathlib.Algebra.Ring.Defs
 /-!
 # C02 — the partial trace sums the entries that agree on the traced subsystems
@@ -14,6 +18,13 @@ to `[T,K,T,K]`, transpose `(1,3,0,2)`, F-order reshape to `[K,K,T*T]`, strided p
 `t*(T+1)`, sum over the last axis).  The theorems hold for every number `n` of subsystems, every
 dimension vector with positive entries (entries `1` allowed) and every duplicate-free list `S` of
 subsystems in any order.
+
+Beyond the numerical core: the argument decoding (`sys` = `None` / int / list, `dim` = `None` / int /
+list, defaults, error guards) and the cvxpy-`Variable` branch are mirrored in
+`Toq/Model/PartialOpsArgs.lean` (`partialTraceArgs`, `partialTraceCvx`); the sections "Argument forms"
+and "The cvxpy `Variable` branch" below say what they mean.  Hermiticity / positive semidefiniteness
+(Mathlib's `Matrix.PosSemidef`) are preserved, and `ptrace_via_permute` states the code's mechanism with
+the permutation model of C01.
 -/
 namespace Toq.C02
 open Toq.PartialOps Toq.PTrace
@@ -166,6 +177,252 @@ theorem ptrace_comp {α : Type} [AddCommMonoid α] (X : Nat → Nat → α) (n :
       = partialTrace X n dims (S ++ liftSys n S T') i j :=
   partialTrace_comp n dims S T' hd hnd hlt hndT hltT X i j hi hj
 
+
+/-! ## Relation to the subsystem permutation (C01) -/
+
+/-- **Tracing out `S` is: move the subsystems in `S` behind the others with `permute_systems`
+    (`perm = others ++ S`, the others keeping their order), then trace out the trailing block.**  `Y` is
+    the permuted operator of C01 (`permuteMat`), its local dimensions are `dims ∘ perm`, and
+    `trailing m s = [m, …, m+s-1]` are the last `s = |S|` of the `n = m + s` subsystems.  This is the
+    mechanism of the code stated with the model of C01, for every `S` in any listing order. -/
+theorem ptrace_via_permute {α : Type} [Add α] [Zero α] (X : Nat → Nat → α) (n : Nat) (dims : Nat → Nat)
+    (S : List Nat) (hd : ∀ k, k < n → 0 < dims k) (hnd : S.Nodup) (hlt : ∀ s ∈ S, s < n) (i j : Nat)
+    (hi : i < subDim dims (others n S)) (hj : j < subDim dims (others n S)) :
+    partialTrace X n dims S i j
+      = partialTrace (Toq.Perms.permuteMat X n (fnOfList (others n S ++ S)) dims dims false false) n
+          (fun k => dims (fnOfList (others n S ++ S) 0 k)) (trailing (others n S).length S.length) i j := by
+  have hlen := others_append_length n S hnd hlt
+  rw [List.length_append] at hlen
+  have hd' : ∀ k, k < n → 0 < dims (fnOfList (others n S ++ S) 0 k) :=
+    fun k hk => hd _ (perm_lt n S hnd hlt k hk)
+  have hndB : (trailing (others n S).length S.length).Nodup := List.nodup_range'
+  have hltB : ∀ x ∈ trailing (others n S).length S.length, x < n := by
+    intro x hx
+    have := List.mem_range'_1.mp hx
+    omega
+  have hO : others n (trailing (others n S).length S.length) = List.range (others n S).length := by
+    have := others_trailing (others n S).length S.length
+    rwa [hlen] at this
+  have hK := (subDim_comp_others n dims S).1
+  rw [ptrace_eq_spec X n dims S hd hnd hlt i j hi hj,
+    ptrace_eq_spec _ n _ _ hd' hndB hltB i j (by rw [hO, hK]; exact hi) (by rw [hO, hK]; exact hj)]
+  exact ptraceSpec_via_permute X n dims S hnd hlt i j hi hj
+
+/-! ## Hermiticity and positivity are preserved -/
+
+/-- **Hermiticity is preserved** (any scalar type with an additive involution `star`, e.g. complex
+    conjugation): if `X[J, I] = star X[I, J]` for all indices of the `N × N` operator, then the model
+    output `Y` satisfies `Y[j, i] = star Y[i, j]` for all indices of the result. -/
+theorem ptrace_hermitian {α : Type} [AddMonoid α] [StarAddMonoid α] (X : Nat → Nat → α) (n : Nat)
+    (dims : Nat → Nat) (S : List Nat) (hd : ∀ k, k < n → 0 < dims k) (hnd : S.Nodup)
+    (hlt : ∀ s ∈ S, s < n)
+    (hX : ∀ I J, I < prodN dims n → J < prodN dims n → X J I = star (X I J)) (i j : Nat)
+    (hi : i < subDim dims (others n S)) (hj : j < subDim dims (others n S)) :
+    partialTrace X n dims S j i = star (partialTrace X n dims S i j) := by
+  rw [ptrace_eq_spec X n dims S hd hnd hlt i j hi hj, ptrace_eq_spec X n dims S hd hnd hlt j i hj hi]
+  exact ptraceSpec_star X n dims S hd hX i j
+
+/-- **Positive semidefiniteness is preserved.**  Read the `N × N` operator and the `K × K` model output
+    as Mathlib matrices (`toMat`).  If `X` is positive semidefinite (Hermitian with
+    `x* X x ≥ 0` for every vector `x`; Mathlib's `Matrix.PosSemidef`, over any ordered star ring such as
+    `ℂ` or `ℝ`), then so is its partial trace over any duplicate-free list of subsystems.  (The partial
+    trace is the sum over the traced labels `t` of the compressions `X[join · t, join · t]`.) -/
+theorem ptrace_posSemidef {R : Type} [Ring R] [PartialOrder R] [StarRing R] [AddLeftMono R]
+    (X : Nat → Nat → R) (n : Nat) (dims : Nat → Nat) (S : List Nat) (hd : ∀ k, k < n → 0 < dims k)
+    (hnd : S.Nodup) (hlt : ∀ s ∈ S, s < n) (hX : (toMat (prodN dims n) X).PosSemidef) :
+    (toMat (subDim dims (others n S)) (partialTrace X n dims S)).PosSemidef := by
+  rw [toMat_partialTrace X n dims S hd hnd hlt]
+  exact ptraceSpec_posSemidef X n dims S hd hX
+
+/-- … and Hermiticity in Mathlib's form `Yᴴ = Y` -/
+theorem ptrace_isHermitian {R : Type} [AddCommMonoid R] [StarAddMonoid R]
+    (X : Nat → Nat → R) (n : Nat) (dims : Nat → Nat) (S : List Nat) (hd : ∀ k, k < n → 0 < dims k)
+    (hnd : S.Nodup) (hlt : ∀ s ∈ S, s < n) (hX : (toMat (prodN dims n) X).IsHermitian) :
+    (toMat (subDim dims (others n S)) (partialTrace X n dims S)).IsHermitian := by
+  rw [toMat_partialTrace X n dims S hd hnd hlt]
+  exact ptraceSpec_isHermitian X n dims S hd hX
+
+/-! ## Argument forms (`Toq/Model/PartialOpsArgs.lean` mirrors the normalisation block of the Python) -/
+
+/-- **The default dimension is the nearest integer to `√N`.**  `roundSqrt N` (the model of
+    `int(np.round(np.sqrt(N)))`) equals `r` exactly when `(r - ½)² < N < (r + ½)²`, written in
+    integers. -/
+theorem roundSqrt_nearest (N r : Nat) (hN : 0 < N) :
+    roundSqrt N = r ↔ r * r - r < N ∧ N ≤ r * r + r :=
+  ⟨fun h => h ▸ roundSqrt_bounds N hN, fun h => roundSqrt_unique N r h.1 h.2⟩
+
+/-- … in particular it is exact on perfect squares -/
+theorem roundSqrt_square (r : Nat) : roundSqrt (r * r) = r := by
+  rcases Nat.eq_zero_or_pos r with rfl | hr
+  · rfl
+  · apply roundSqrt_unique
+    · have : 0 < r * r := Nat.mul_pos hr hr
+      omega
+    · omega
+
+/-- **A bare integer `sys = s` means the one-element list `[s]`; an omitted `sys` means `[1]`; a
+    one-element `dim = [d]` means the scalar `d`; an omitted `dim` on a perfect-square size means the
+    scalar `round(√N)`.** -/
+theorem ptrace_args_forms {α : Type} [Add α] [Zero α] (X : Nat → Nat → α) (N : Nat) (s : Int) (d : Nat)
+    (sys : SysArg) (dim : DimArg) :
+    partialTraceArgs X N (.int s) dim = partialTraceArgs X N (.list [s]) dim ∧
+    partialTraceArgs X N .omitted dim = partialTraceArgs X N (.list [1]) dim ∧
+    partialTraceArgs X N sys (.list [d]) = partialTraceArgs X N sys (.scalar d) ∧
+    (roundSqrt N * roundSqrt N = N →
+      partialTraceArgs X N sys .omitted = partialTraceArgs X N sys (.scalar (roundSqrt N))) := by
+  refine ⟨rfl, rfl, rfl, fun h => ?_⟩
+  unfold partialTraceArgs
+  rw [decodeDim_omitted N h, decodeDim_scalar]
+
+/-- **An omitted `dim` is rejected unless the size is a perfect square** (whatever `sys` is): the
+    default "two equal subsystems" has no meaning otherwise. -/
+theorem ptrace_args_omitted_rejects {α : Type} [Add α] [Zero α] (X : Nat → Nat → α) (N : Nat)
+    (sys : SysArg) (h : ∀ r, r * r ≠ N) :
+    partialTraceArgs X N sys .omitted = .error .InvalidDim := by
+  unfold partialTraceArgs
+  rw [decodeDim_omitted_reject N (h _)]
+  rfl
+
+/-- **List arguments: the call is accepted exactly on the documented domain, and then returns the
+    partial trace.**  For an `N × N` input (`N ≥ 1`), a dimension list `dl` of length `n ≠ 1` and a list
+    `sys` of integers, `partial_trace` returns (rather than raises) iff the dimensions multiply to `N`
+    and `sys` is a duplicate-free list of numbers in `0 … n-1`; the result then is the `K × K` matrix
+    (`K` = product of the remaining dimensions) computed by the mirror model, i.e. the index
+    contraction `ptraceSpec`. -/
+theorem ptrace_args_list {α : Type} [Add α] [Zero α] (X : Nat → Nat → α) (N : Nat) (hN : 0 < N)
+    (dl : List Nat) (hlen : dl.length ≠ 1) (sys : List Int) :
+    ((∃ r, partialTraceArgs X N (.list sys) (.list dl) = .ok r) ↔
+      prodN (fnOfList dl) dl.length = N ∧
+        ∃ S : List Nat, sys = S.map Int.ofNat ∧ S.Nodup ∧ ∀ s ∈ S, s < dl.length) ∧
+    ∀ S : List Nat, sys = S.map Int.ofNat → S.Nodup → (∀ s ∈ S, s < dl.length) →
+      prodN (fnOfList dl) dl.length = N →
+      partialTraceArgs X N (.list sys) (.list dl)
+        = .ok (subDim (fnOfList dl) (others dl.length S), partialTrace X dl.length (fnOfList dl) S) ∧
+      ∀ i j, i < subDim (fnOfList dl) (others dl.length S) → j < subDim (fnOfList dl) (others dl.length S) →
+        partialTrace X dl.length (fnOfList dl) S i j = ptraceSpec X dl.length (fnOfList dl) S i j := by
+  have he : decodeDim N (.list dl) = .ok dl := expandDim_of_length N dl hlen
+  have main : ∀ S : List Nat, sys = S.map Int.ofNat → S.Nodup → (∀ s ∈ S, s < dl.length) →
+      prodN (fnOfList dl) dl.length = N →
+      partialTraceArgs X N (.list sys) (.list dl)
+        = .ok (subDim (fnOfList dl) (others dl.length S), partialTrace X dl.length (fnOfList dl) S) ∧
+      ∀ i j, i < subDim (fnOfList dl) (others dl.length S) → j < subDim (fnOfList dl) (others dl.length S) →
+        partialTrace X dl.length (fnOfList dl) S i j = ptraceSpec X dl.length (fnOfList dl) S i j := by
+    intro S hS hnd hlt hprod
+    have hd : ∀ k, k < dl.length → 0 < fnOfList dl 0 k :=
+      Toq.Perms.pos_of_lt_prodN _ _ 0 (by rw [hprod]; exact hN)
+    have hs : checkSys dl.length (SysArg.list sys).toList false = .ok S := by
+      rw [hS]; exact checkSys_ok _ S false hnd hlt
+    refine ⟨?_, fun i j hi hj => ptrace_eq_spec X _ _ S hd hnd hlt i j hi hj⟩
+    rw [partialTraceArgs_of X N (.list sys) (.list dl) dl S he hs hprod, ← hprod,
+      model_K dl.length (fnOfList dl) S hd hnd hlt]
+  refine ⟨⟨?_, ?_⟩, main⟩
+  · rintro ⟨r, hr⟩
+    obtain ⟨dl', S, he', hs, hprod⟩ := partialTraceArgs_ok_inv X N _ _ r hr
+    have : dl' = dl := by
+      have h := he.symm.trans he'
+      injection h with h; exact h.symm
+    subst this
+    exact ⟨hprod, S, (checkSys_ok_iff _ _ _ _).mp hs⟩
+  · rintro ⟨hprod, S, hS, hnd, hlt⟩
+    exact ⟨_, (main S hS hnd hlt hprod).1⟩
+
+/-- **A scalar dimension `d` means the dimensions `[d, N/d]`**: if `d ≥ 1` divides `N`, the call with
+    `dim = d` is the call with `dim = [d, N/d]` (whatever `sys` is) … -/
+theorem ptrace_args_scalar {α : Type} [Add α] [Zero α] (X : Nat → Nat → α) (N d : Nat) (sys : SysArg)
+    (hd : 0 < d) (hdiv : d ∣ N) :
+    partialTraceArgs X N sys (.scalar d) = partialTraceArgs X N sys (.list [d, N / d]) := by
+  unfold partialTraceArgs
+  rw [decodeDim_scalar, decodeDim_list, expandDim_scalar N d hd hdiv, expandDim_of_length N [d, N / d] (by simp)]
+
+/-- … and if `d` does not divide `N` (or is `0`) the call is rejected with the "must evenly divide"
+    error -/
+theorem ptrace_args_scalar_rejects {α : Type} [Add α] [Zero α] (X : Nat → Nat → α) (N d : Nat)
+    (sys : SysArg) (h : d = 0 ∨ ¬ d ∣ N) :
+    partialTraceArgs X N sys (.scalar d) = .error .InvalidDim := by
+  unfold partialTraceArgs
+  rw [decodeDim_scalar, expandDim_scalar_reject N d h]
+  rfl
+
+/-- **Omitted arguments mean two equal subsystems with the second traced out.**  For an
+    `r² × r²` input (`r ≥ 1`), `partial_trace(X)` is accepted and returns the `r × r` matrix
+    `Y[i, j] = Σ_{t<r} X[i*r + t, j*r + t]`. -/
+theorem ptrace_args_omitted {α : Type} [Add α] [Zero α] (X : Nat → Nat → α) (r : Nat) (hr : 0 < r) :
+    partialTraceArgs X (r * r) .omitted .omitted
+        = .ok (r, partialTrace X 2 (fnOfList [r, r]) [1]) ∧
+      ∀ i j, i < r → j < r →
+        partialTrace X 2 (fnOfList [r, r]) [1] i j = sumN r (fun t => X (i * r + t) (j * r + t)) := by
+  have hd : ∀ k, k < 2 → 0 < fnOfList [r, r] 0 k := by
+    intro k hk
+    have : k = 0 ∨ k = 1 := by omega
+    rcases this with rfl | rfl <;> simpa [fnOfList]
+  have hK : subDim (fnOfList [r, r]) (others 2 [1]) = r := by
+    rw [others_2_1]; simp [subDim, subDims, prodN, fnOfList]
+  have hT : subDim (fnOfList [r, r]) [1] = r := by simp [subDim, subDims, prodN, fnOfList]
+  constructor
+  · have he : decodeDim (r * r) .omitted = .ok [r, r] := by
+      rw [decodeDim_omitted (r * r) (by rw [roundSqrt_square]), roundSqrt_square,
+        expandDim_scalar (r * r) r hr ⟨r, rfl⟩, Nat.mul_div_cancel _ hr]
+    have hs : checkSys [r, r].length (SysArg.omitted).toList false = .ok [1] :=
+      checkSys_ok 2 [1] false (by simp) (by simp)
+    have hprod : prodN (fnOfList [r, r]) [r, r].length = r * r := by simp [prodN, fnOfList]
+    rw [partialTraceArgs_of X (r * r) .omitted .omitted [r, r] [1] he hs hprod]
+    have := model_K 2 (fnOfList [r, r]) [1] hd (by simp) (by simp)
+    rw [hK] at this
+    show Except.ok (r * r / prodList (fnOfList [r, r]) [1], _) = _
+    rw [← hprod]
+    show Except.ok (prodN (fnOfList [r, r]) 2 / prodList (fnOfList [r, r]) [1], _) = _
+    rw [this]
+    rfl
+  · intro i j hi hj
+    rw [ptrace_eq_spec X 2 _ [1] hd (by simp) (by simp) i j (by rw [hK]; exact hi) (by rw [hK]; exact hj)]
+    unfold ptraceSpec
+    rw [hT]
+    apply sumN_congr
+    intro t ht
+    rw [join_2_1 r r i t hi ht, join_2_1 r r j t hj ht]
+
+/-! ## The cvxpy `Variable` branch -/
+
+/-- **A numeric array and a cvxpy variable holding that array give the same result.**  The `Variable`
+    branch runs the same code on the object array of index atoms `V[i, j]` and packs the result with
+    `bmat`.  For every argument form and every value `val` (any scalar type with `+` and `0`, no laws
+    needed): the variable call is accepted iff the numeric call is, with the same shape, and the
+    value of the returned expression at `(i, j)` is entry `(i, j)` of the numeric result. -/
+theorem ptrace_cvx_value {β : Type} [Add β] [Zero β] (val : Nat → Nat → β) (N : Nat) (sys : SysArg)
+    (dim : DimArg) :
+    partialTraceArgs val N sys dim
+      = (partialTraceCvx N sys dim).map (fun r => (r.1, fun i j => (r.2 i j).eval val)) := by
+  unfold partialTraceCvx partialTraceArgs
+  simp only [bind, Except.bind, Except.map]
+  split
+  · rfl
+  split
+  · rfl
+  split
+  · rfl
+  · simp only [pure, Except.pure]
+    congr 2
+    funext i j
+    exact (partialTrace_cvx_eval val _ _ _ i j).symm
+
+/-- **The returned expression is literally the sum of the atoms `V[join i t, join j t]`**, `t` running
+    over the labels of the traced subsystems in increasing order: its list of index atoms (left to
+    right) is exactly that list.  So the variable branch traces the same subsystems, keeps the others in
+    their original order, and introduces no other dependence on the variable. -/
+theorem ptrace_cvx_atoms (n : Nat) (dims : Nat → Nat) (S : List Nat) (hd : ∀ k, k < n → 0 < dims k)
+    (hnd : S.Nodup) (hlt : ∀ s ∈ S, s < n) (i j : Nat)
+    (hi : i < subDim dims (others n S)) (hj : j < subDim dims (others n S)) :
+    (partialTrace exprAsNpArray n dims S i j).leaves
+      = (List.range (subDim dims S)).map (fun t => (join n dims S i t, join n dims S j t)) := by
+  rw [ptrace_eq_spec exprAsNpArray n dims S hd hnd hlt i j hi hj]
+  unfold ptraceSpec
+  rw [leaves_sumN]
+  show (List.range (subDim dims S)).flatMap (fun t => [(join n dims S i t, join n dims S j t)]) = _
+  generalize List.range (subDim dims S) = L
+  induction L with
+  | nil => rfl
+  | cons a L ih => rw [List.flatMap_cons, ih]; rfl
+
 /-! ### non-vacuity -/
 
 /-- the docstring example of `partial_trace.py`: the 16×16 matrix `1..256`, four qubits, `sys = [0, 2]`;
@@ -194,6 +451,79 @@ example : liftSys 3 [1] [1] = [2] ∧
         (subDims (fnOfList [2, 3, 2]) (others 3 [1])) [1] i))
     = listOfFn 2 (fun i => listOfFn 2
       (partialTrace (fun r c => 12 * r + c) 3 (fnOfList [2, 3, 2]) [1, 2] i)) := by
+  decide
+
+/-- summary of a front-end result for the examples: shape and entries, or the rejection -/
+def showResult : Except Rej (Nat × (Nat → Nat → Int)) → Option Rej × Option (Nat × List (List Int))
+  | .ok p => (none, some (p.1, listOfFn p.1 (fun i => listOfFn p.1 (p.2 i))))
+  | .error e => (some e, none)
+
+/-- argument forms on the docstring matrix `1..16`: omitted arguments = `dim [2,2]`, `sys [1]`
+    (documented result `[[7,11],[23,27]]`); `sys = 0` with scalar `dim = 2` -/
+example :
+    showResult (partialTraceArgs (fun r c => (4 * r + c + 1 : Int)) 4 .omitted .omitted)
+      = (none, some (2, [[7, 11], [23, 27]])) ∧
+    showResult (partialTraceArgs (fun r c => (4 * r + c + 1 : Int)) 4 (.int 0) (.scalar 2))
+      = (none, some (2, [[12, 14], [20, 22]])) := by decide
+
+/-- the rejected forms: repeated, negative, out-of-range subsystem -/
+example :
+    showResult (partialTraceArgs (fun r c => (4 * r + c + 1 : Int)) 4 (.list [0, 0]) (.list [2, 2]))
+      = (some .InvalidPerm, none) ∧
+    showResult (partialTraceArgs (fun r c => (4 * r + c + 1 : Int)) 4 (.list [-1]) (.list [2, 2]))
+      = (some .InvalidPerm, none) ∧
+    showResult (partialTraceArgs (fun r c => (4 * r + c + 1 : Int)) 4 (.int 2) (.list [2, 2]))
+      = (some .IndexError, none) := by decide
+
+/-- … non-dividing scalar, wrong product -/
+example :
+    showResult (partialTraceArgs (fun r c => (4 * r + c + 1 : Int)) 4 (.int 0) (.scalar 3))
+      = (some .InvalidDim, none) ∧
+    showResult (partialTraceArgs (fun r c => (4 * r + c + 1 : Int)) 4 (.int 0) (.list [2, 3]))
+      = (some .InvalidDim, none) := by decide
+
+/-- the default on a size that is not a perfect square is rejected (`6`, `8`, `2`, `12`), also for a
+    cvxpy variable; on `9 = 3²` it is accepted with two equal subsystems -/
+example :
+    roundSqrt 6 = 2 ∧ roundSqrt 8 = 3 ∧ roundSqrt 2 = 1 ∧ roundSqrt 12 = 3 ∧ roundSqrt 13 = 4 := by decide
+
+example :
+    showResult (partialTraceArgs (fun r c => (6 * r + c : Int)) 6 .omitted .omitted)
+      = (some .InvalidDim, none) ∧
+    showResult (partialTraceArgs (fun r c => (8 * r + c : Int)) 8 .omitted .omitted)
+      = (some .InvalidDim, none) ∧
+    showResult (partialTraceArgs (fun r c => (2 * r + c : Int)) 2 (.int 0) .omitted)
+      = (some .InvalidDim, none) := by decide
+
+example :
+    showResult (partialTraceArgs (fun r c => (12 * r + c : Int)) 12 .omitted .omitted)
+      = (some .InvalidDim, none) ∧
+    ((partialTraceCvx 6 .omitted .omitted).toOption.map (fun r => r.1)) = none ∧
+    ((partialTraceCvx 9 .omitted .omitted).toOption.map (fun r => (r.1, (r.2 0 1).leaves)))
+      = some (3, [(0, 3), (1, 4), (2, 5)]) := by decide
+
+/-- the cvxpy branch on `dims = [2, 3]`, `sys = [0]`: entry `(1, 2)` of the returned expression is
+    `V[1, 2] + V[4, 5]` -/
+example :
+    ((partialTraceCvx 6 (.list [0]) (.list [2, 3])).toOption.map (fun r => (r.1, (r.2 1 2).leaves)))
+      = some (3, [(1, 2), (4, 5)]) := by decide
+
+/-- the hypothesis of `ptrace_posSemidef` is satisfiable: the identity on two qubits is positive
+    semidefinite (and then so is its partial trace, `2·I`) -/
+example : (toMat (prodN (fnOfList [2, 2]) 2) (fun i j => if i = j then (1 : ℤ) else 0)).PosSemidef := by
+  have : toMat (prodN (fnOfList [2, 2]) 2) (fun i j => if i = j then (1 : ℤ) else 0) = 1 := by
+    ext i j
+    simp [toMat, Matrix.one_apply, Fin.ext_iff]
+  rw [this]
+  exact Matrix.PosSemidef.one
+
+/-- `ptrace_via_permute` on `dims = [2,3,2]`, `S = [2, 0]`: `perm = [1, 2, 0]`, the permuted operator has
+    dims `[3, 2, 2]` and its trailing block `[1, 2]` is traced -/
+example : others 3 [2, 0] ++ [2, 0] = [1, 2, 0] ∧ trailing 1 2 = [1, 2] ∧
+    listOfFn 3 (fun i => listOfFn 3 (partialTrace (fun r c => 12 * r + c) 3 (fnOfList [2, 3, 2]) [2, 0] i))
+      = listOfFn 3 (fun i => listOfFn 3
+          (partialTrace (Toq.Perms.permuteMat (fun r c => 12 * r + c) 3 (fnOfList [1, 2, 0])
+            (fnOfList [2, 3, 2]) (fnOfList [2, 3, 2]) false false) 3 (fnOfList [3, 2, 2]) [1, 2] i)) := by
   decide
 
 end Toq.C02
